@@ -544,6 +544,29 @@ def dispatcher_names(repo, rep):
                  "mis-identified")
 
 
+def no_positional_turn(repo, rep):
+    """R-C12-9: direction conventions are converted by re-labelling the coordinate ((dir + 180) % 360, R2D * dir ...), never by moving the data
+    along the axis: a roll by n/2 bins equals a 180-degree turn only on a regular full circle with an even number of bins stored in order."""
+    rep.rule("R-C12-9", "converters change the direction convention by re-labelling the direction coordinate, never by rolling / shifting / reversing the data "
+                        "along the direction axis (which assumes a regular, even-sized, ordered full circle)")
+    n = 0
+    for q in list(NATIVE) + ["wavespectra.input.era5.from_era5", "wavespectra.input.ndbc.from_ndbc"]:
+        try:
+            fi = repo.func(q)
+        except AnalysisError:
+            continue
+        n += 1
+        bad = [c for c in ast.walk(fi.node) if isinstance(c, ast.Call) and isinstance(c.func, ast.Attribute) and c.func.attr in ("roll", "shift")
+               or (isinstance(c, ast.Call) and (call_name(c) or "").split(".")[-1] in ("roll", "flip", "fliplr", "flipud"))]
+        if bad:
+            rep.fail("R-C12-9", fi.file, bad[0].lineno, fi.qualname, unparse(bad[0])[:100],
+                     "the data are moved along the direction axis instead of the coordinate being re-labelled: with an odd number of bins, unequal "
+                     "spacing or bins stored out of order the bins are not turned by 180 degrees and energy lands at the wrong physical direction")
+        else:
+            rep.ok("R-C12-9", f"{fi.file}:{fi.node.lineno} {fi.short}", "no roll / shift / flip", "conventions converted through the coordinate labels")
+    rep.floor("R-C12-9", "converters examined", n, 5)
+
+
 def run(repo, rep, tier):
     rep.rule("R-C12-5", "every parameter of the functions behind this property is read (model-native converters): none is accepted and then ignored, and no control parameter (cutoff, limit, tolerance, window, count, switch) is replaced by another value before use (coercion and default filling aside)")
     from .shared import unused_parameters
@@ -565,6 +588,7 @@ def run(repo, rep, tier):
             rep.fail("R-C12-4", e.file, e.line, fi.qualname, e.construct, f"{e.what}: the caller's dataset is modified, a second conversion of the same object converts twice", list(e.via))
         else:
             rep.ok("R-C12-4", f"{fi.file}:{fi.node.lineno} {fi.short}", "no write effect on the input dataset", "effect summary")
+    no_positional_turn(repo, rep)
     try:
         converters(repo, rep)
     except AnalysisError as e_:
